@@ -367,7 +367,8 @@ class Run:
         exit_code = 0
         lines = []
         need_search = bool(self.broken or self.disagreements)
-        if need_search and not self.failures and search is not None:
+        listed_keys = {k.get("key") for k in kf}
+        if need_search and search is not None and all(f["key"] in listed_keys for f in self.failures):
             try:
                 search(self)
             except Exception as e:  # search is best effort
